@@ -168,6 +168,12 @@ class Module:
     except SyntaxError as e:
       raise AnalysisError('cannot parse %s: %s' % (relpath, e))
     self.renamed_locals = 0
+    self.normalized = (0, 0)
+    try:
+      from .normalize import normalize
+      self.normalized = normalize(self.tree, name)
+    except RecursionError:
+      pass
     if not os.environ.get('GINSA_NO_CANON'):
       from .canon import canonicalise
       self.renamed_locals = canonicalise(self.tree, name)
